@@ -1875,14 +1875,20 @@ func (vm *Thread) selfValue() value.Value {
 }
 
 func (vm *Thread) lookupMethod(class *value.Class, callInfo *CallSiteInfo, index int) value.Method {
-	for i := range len(callInfo.Cache) {
-		cacheEntry := callInfo.Cache[i]
+	epoch := methodCacheEpoch.Load()
+	cache := callInfo.Cache
+	if callInfo.Epoch != epoch {
+		// a method has been defined since the entries were recorded
+		cache = [3]CallCacheEntry{}
+	}
+	for i := range len(cache) {
+		cacheEntry := cache[i]
 		if cacheEntry.Class == class {
 			return cacheEntry.Method
 		}
 		if cacheEntry.Class == nil {
 			method := class.LookupMethod(callInfo.Name)
-			newCache := callInfo.Cache
+			newCache := cache
 			newCache[i] = CallCacheEntry{
 				Class:  class,
 				Method: method,
@@ -1891,6 +1897,7 @@ func (vm *Thread) lookupMethod(class *value.Class, callInfo *CallSiteInfo, index
 				Name:          callInfo.Name,
 				ArgumentCount: callInfo.ArgumentCount,
 				Cache:         newCache,
+				Epoch:         epoch,
 			})
 			return method
 		}
@@ -2355,6 +2362,7 @@ func (vm *Thread) opInclude() (err value.Value) {
 	switch target := targetValue.SafeAsReference().(type) {
 	case *value.Class:
 		target.IncludeMixin(mixin)
+		InvalidateMethodCaches()
 	default:
 		return value.Ref(value.Errorf(
 			value.TypeErrorClass,
@@ -2376,6 +2384,7 @@ func (vm *Thread) opDefMethod() {
 	switch m := methodContainer.SafeAsReference().(type) {
 	case *value.Class:
 		m.Methods[name] = body
+		InvalidateMethodCaches()
 	default:
 		panic(fmt.Sprintf("invalid method container: %s", methodContainer.Inspect()))
 	}
@@ -2403,6 +2412,7 @@ func (vm *Thread) opDefGetter() {
 	switch m := methodContainer.SafeAsReference().(type) {
 	case *value.Class:
 		DefineGetter(&m.MethodContainer, name, int(index))
+		InvalidateMethodCaches()
 	default:
 		panic(fmt.Sprintf("cannot define a getter in an invalid method container: %s", methodContainer.Inspect()))
 	}
@@ -2417,6 +2427,7 @@ func (vm *Thread) opDefSetter() {
 	switch m := methodContainer.SafeAsReference().(type) {
 	case *value.Class:
 		DefineSetter(&m.MethodContainer, name, int(index))
+		InvalidateMethodCaches()
 	default:
 		panic(fmt.Sprintf("cannot define a setter in an invalid method container: %s", methodContainer.Inspect()))
 	}
@@ -2570,6 +2581,7 @@ func (vm *Thread) opSetSuperclass() {
 	}
 
 	class.SetSuperclass(newSuperclass)
+	InvalidateMethodCaches()
 }
 
 // Look for a constant with the given name.
